@@ -2,6 +2,7 @@ package decoder
 
 import (
 	"encoding/json"
+	"fmt"
 	"strconv"
 	"unsafe"
 
@@ -29,8 +30,8 @@ func (d *numberDecoder) DecodeStream(s *Stream, depth int64, p unsafe.Pointer) e
 	if err != nil {
 		return err
 	}
-	if _, err := strconv.ParseFloat(*(*string)(unsafe.Pointer(&bytes)), 64); err != nil {
-		return errors.ErrSyntax(err.Error(), s.totalOffset())
+	if !validNumber(bytes) {
+		return errors.ErrSyntax(invalidNumberMessage(bytes), s.totalOffset())
 	}
 	d.op(p, json.Number(string(bytes)))
 	s.reset()
@@ -42,8 +43,8 @@ func (d *numberDecoder) Decode(ctx *RuntimeContext, cursor, depth int64, p unsaf
 	if err != nil {
 		return 0, err
 	}
-	if _, err := strconv.ParseFloat(*(*string)(unsafe.Pointer(&bytes)), 64); err != nil {
-		return 0, errors.ErrSyntax(err.Error(), c)
+	if !validNumber(bytes) {
+		return 0, errors.ErrSyntax(invalidNumberMessage(bytes), c)
 	}
 	cursor = c
 	s := *(*string)(unsafe.Pointer(&bytes))
@@ -120,4 +121,55 @@ func (d *numberDecoder) decodeByte(buf []byte, cursor int64) ([]byte, int64, err
 			return nil, 0, errors.ErrUnexpectedEndOfJSON("json.Number", cursor)
 		}
 	}
+}
+
+// invalidNumberMessage keeps strconv's wording where strconv also rejects the text.
+func invalidNumberMessage(b []byte) string {
+	if _, err := strconv.ParseFloat(string(b), 64); err != nil {
+		return err.Error()
+	}
+	return fmt.Sprintf("invalid number literal %q", b)
+}
+
+// validNumber reports whether s is a number of the JSON grammar:
+// -? (0 | [1-9][0-9]*) (. [0-9]+)? ([eE] [+-]? [0-9]+)?
+func validNumber(s []byte) bool {
+	i, n := 0, len(s)
+	if i < n && s[i] == '-' {
+		i++
+	}
+	if i == n {
+		return false
+	}
+	if s[i] == '0' {
+		i++
+	} else if '1' <= s[i] && s[i] <= '9' {
+		for i < n && '0' <= s[i] && s[i] <= '9' {
+			i++
+		}
+	} else {
+		return false
+	}
+	if i < n && s[i] == '.' {
+		i++
+		if i == n || s[i] < '0' || '9' < s[i] {
+			return false
+		}
+		for i < n && '0' <= s[i] && s[i] <= '9' {
+			i++
+		}
+	}
+	if i < n && (s[i] == 'e' || s[i] == 'E') {
+		i++
+		if i < n && (s[i] == '+' || s[i] == '-') {
+			i++
+		}
+		if i == n || s[i] < '0' || '9' < s[i] {
+			return false
+		}
+		for i < n && '0' <= s[i] && s[i] <= '9' {
+			i++
+		}
+	}
+	return i == n
 }
